@@ -115,6 +115,10 @@ FIXED = [
   "SeekableChain: an empty volume made read return 0 although later volumes had data (volumes '', '04': read(1) at position 0 returned 0); seek(Start(n > len)) returned len instead of n and seek(Current(-k)) below 0 returned Ok(0) where a single file returns n resp. an error, so following relative seeks diverged from a single file", None),
  ("KF-C20-3", "C20", "C20-existing-outside-file-reported", "fix: don't report archive members with names leading outside",
   "extract_to_dir reported a member named '../evil.dlt' as extracted when a file happened to exist at <target>/../evil.dlt (outside the temporary directory): the 'already extracted' shortcut did not check that the name stays inside", None),
+ ("KF-C20-4", "C20", "C20-partial-file-after-cancelled-extraction", "fix: remove the partial file when the extraction",
+  "extract_to_dir: a request cancelled (or failing) while a member was being copied left the partial file in the target directory; the next request for the same member into the same directory (the temporary directory is kept per archive) found the file, skipped the extraction and reported it as extracted: b.txt reported with 121000 of the member's 128263 bytes after a request cancelled at 87 % of the archive and repeated", "replays/examples/C20-partial-file-after-cancel.json"),
+ ("KF-C03-20", "C03", "C03-text-iterators-index-overflow", "fix: asc/blf/genlog/logcat iterators: index of the next msg wraps",
+  "the CAN-ASC, BLF, generic-log and logcat iterators computed the index of the next message with an unchecked += 1: a file whose numbering continues from earlier files at u32::MAX-k panicked ('attempt to add with overflow') right after the message with index u32::MAX, where DltMessageIterator and the merge iterators wrap", "replays/examples/C03-text-iterator-index-overflow.json"),
 ]
 OPEN = [
  # (id, property, key, what, replay)
